@@ -49,4 +49,1075 @@ theorem getElem?_set_worker (ws : List Worker) (g g' : Nat) (w w' : Worker) (hg 
   · subst h; simp [hlt]
   · simp [h, List.getElem?_set_ne (Ne.symm h)]
 
+
+/-! ### structural invariant -/
+
+structure SInv (progs : List (List Op)) (s : St) : Prop where
+  len : s.ws.length = progs.length
+  /-- a worker's remaining ops are the suffix of its program at its program counter -/
+  sync : ∀ (g : Nat) (w : Worker), s.ws[g]? = some w → w.ops = (progs[g]?.getD []).drop w.idx
+  /-- only the holder of `Logger.mu` sits in a replay -/
+  rep : ∀ (g : Nat) (w : Worker), s.ws[g]? = some w → w.gate = some .replay → s.flusher = some g
+  /-- … and it is executing a `FlushBuffer` -/
+  repOp : ∀ (g : Nat) (w : Worker), s.ws[g]? = some w → w.gate = some .replay → w.ops.head? = some .flush
+  f3 : s.flusher = none → s.batch = []
+  f4 : s.flusher.isSome = true → s.wrapped = true ∧ s.buffering = true
+  f5 : s.buffering = false → s.buffer = []
+  f6 : s.wrapped = false → s.buffering = false
+
+theorem sync_tail {progs : List (List Op)} {g : Nat} {w : Worker}
+    (h : w.ops = (progs[g]?.getD []).drop w.idx) : w.ops.tail = (progs[g]?.getD []).drop (w.idx + 1) := by
+  rw [h, List.tail_drop]
+
+/-- finishing the op in progress with new global fields `s'` (same workers as `s`) -/
+theorem sinv_finish {progs : List (List Op)} {s s' : St} {g : Nat} {w : Worker}
+    (h : SInv progs s) (hw : s.ws[g]? = some w) (hws : s'.ws = s.ws)
+    (hfl : s'.flusher = s.flusher ∨ (s.flusher = some g ∧ s'.flusher = none))
+    (f3 : s'.flusher = none → s'.batch = [])
+    (f4 : s'.flusher.isSome = true → s'.wrapped = true ∧ s'.buffering = true)
+    (f5 : s'.buffering = false → s'.buffer = [])
+    (f6 : s'.wrapped = false → s'.buffering = false) :
+    SInv progs (finishOp s' g w) := by
+  have hw' : s'.ws[g]? = some w := by rw [hws]; exact hw
+  refine ⟨?_, ?_, ?_, ?_, ?_, ?_, ?_, ?_⟩
+  · simp [finishOp_eq, hws, h.len]
+  · intro g' wx hx
+    simp only [finishOp_eq, setWorker_ws, emit_ws, getElem?_set_worker _ g g' w _ hw'] at hx
+    split at hx
+    · rename_i hgg; subst hgg
+      cases hx
+      exact sync_tail (h.sync g' w hw)
+    · rw [hws] at hx; exact h.sync g' wx hx
+  · intro g' wx hx hgate
+    simp only [finishOp_eq, setWorker_ws, emit_ws, getElem?_set_worker _ g g' w _ hw'] at hx
+    split at hx
+    · cases hx; cases hgate
+    · rename_i hne
+      rw [hws] at hx
+      have := h.rep g' wx hx hgate
+      simp only [finishOp_eq, setWorker_flusher, emit_flusher]
+      rcases hfl with hfl | ⟨hfl, _⟩
+      · rw [hfl]; exact this
+      · rw [hfl] at this; cases this; exact absurd rfl hne
+  · intro g' wx hx hgate
+    simp only [finishOp_eq, setWorker_ws, emit_ws, getElem?_set_worker _ g g' w _ hw'] at hx
+    split at hx
+    · cases hx; cases hgate
+    · rw [hws] at hx; exact h.repOp g' wx hx hgate
+  · simpa [finishOp_eq] using f3
+  · simpa [finishOp_eq] using f4
+  · simpa [finishOp_eq] using f5
+  · simpa [finishOp_eq] using f6
+
+/-- changing only the gate of worker `g` (not to a replay) and possibly global fields -/
+theorem sinv_gate {progs : List (List Op)} {s s' : St} {g : Nat} {w : Worker} {gt : Option Gate}
+    (h : SInv progs s) (hw : s.ws[g]? = some w) (hws : s'.ws = s.ws)
+    (hgt : gt = some .replay → s'.flusher = some g ∧ w.ops.head? = some .flush)
+    (hfl : s'.flusher = s.flusher ∨ ((s.flusher = none ∨ s.flusher = some g) ∧ s'.flusher = some g))
+    (f3 : s'.flusher = none → s'.batch = [])
+    (f4 : s'.flusher.isSome = true → s'.wrapped = true ∧ s'.buffering = true)
+    (f5 : s'.buffering = false → s'.buffer = [])
+    (f6 : s'.wrapped = false → s'.buffering = false) :
+    SInv progs (setWorker s' g { w with gate := gt }) := by
+  have hw' : s'.ws[g]? = some w := by rw [hws]; exact hw
+  refine ⟨?_, ?_, ?_, ?_, ?_, ?_, ?_, ?_⟩
+  · simp [hws, h.len]
+  · intro g' wx hx
+    simp only [setWorker_ws, getElem?_set_worker _ g g' w _ hw'] at hx
+    split at hx
+    · rename_i hgg; subst hgg
+      cases hx
+      exact h.sync g' w hw
+    · rw [hws] at hx; exact h.sync g' wx hx
+  · intro g' wx hx hgate
+    simp only [setWorker_ws, getElem?_set_worker _ g g' w _ hw'] at hx
+    simp only [setWorker_flusher]
+    split at hx
+    · rename_i hgg; subst hgg
+      cases hx
+      exact (hgt hgate).1
+    · rename_i hne
+      rw [hws] at hx
+      have := h.rep g' wx hx hgate
+      rcases hfl with hfl | ⟨hfl, _⟩
+      · rw [hfl]; exact this
+      · rcases hfl with hfl | hfl
+        · rw [hfl] at this; cases this
+        · rw [hfl] at this; cases this; exact absurd rfl hne
+  · intro g' wx hx hgate
+    simp only [setWorker_ws, getElem?_set_worker _ g g' w _ hw'] at hx
+    split at hx
+    · cases hx
+      exact (hgt hgate).2
+    · rw [hws] at hx; exact h.repOp g' wx hx hgate
+  · simpa using f3
+  · simpa using f4
+  · simpa using f5
+  · simpa using f6
+
+
+theorem sinv_flush {progs : List (List Op)} {s : St} {g : Nat} {w : Worker} (first : Bool)
+    (h : SInv progs s) (hw : s.ws[g]? = some w) (hwr : s.wrapped = true) (hb : s.batch = [])
+    (hf : s.flusher = none ∨ s.flusher = some g) (hhead : w.ops.head? = some .flush) :
+    SInv progs (flushContinue (flushTake Flags.fixed s first) g w) := by
+  unfold flushTake
+  simp only [Flags.fixed, if_true]
+  cases hbuf : s.buffer with
+  | nil =>
+    simp only [flushContinue, hb, List.isEmpty_nil, if_true]
+    apply sinv_finish h hw
+    · rfl
+    · rcases hf with hf | hf
+      · left; simp [hf]
+      · right; exact ⟨hf, rfl⟩
+    · intro _; rfl
+    · intro hc; cases hc
+    · intro _; rfl
+    · intro _; rfl
+  | cons r rest =>
+    simp only [flushContinue, List.isEmpty_cons, Bool.false_eq_true, if_false]
+    apply sinv_gate h hw
+    · rfl
+    · intro _; exact ⟨rfl, hhead⟩
+    · right; exact ⟨hf, rfl⟩
+    · intro hc; cases hc
+    · intro _
+      refine ⟨hwr, ?_⟩
+      cases hbf : s.buffering with
+      | true => rfl
+      | false => rw [h.f5 hbf] at hbuf; cases hbuf
+    · intro _; rfl
+    · intro hc; simp only at hc; rw [hwr] at hc; cases hc
+
+/-- the structural invariant is preserved by every segment of every worker -/
+theorem sinv_advance {progs : List (List Op)} {s : St} (g : Nat) (h : SInv progs s) :
+    SInv progs (advance Flags.fixed s g) := by
+  unfold advance
+  split
+  · exact h
+  · rename_i w hw
+    split
+    · -- pass gate: the write completes
+      exact sinv_finish h hw rfl (Or.inl rfl) h.f3 h.f4 h.f5 h.f6
+    · -- replay gate
+      rename_i hgate
+      have hfl := h.rep g w hw hgate
+      split
+      · rename_i hb
+        exact sinv_flush false h hw (h.f4 (by simp [hfl])).1 hb (Or.inr hfl) (h.repOp g w hw hgate)
+      · rename_i r rest hb
+        simp only [Flags.fixed, Bool.not_true, Bool.and_false, Bool.false_eq_true, if_false]
+        split
+        · -- last record of the batch: look at the buffer again
+          have h' : SInv progs { (emit s (writeEv Flags.fixed true r)) with batch := [] } :=
+            ⟨h.len, h.sync, h.rep, h.repOp, fun _ => rfl, h.f4, h.f5, h.f6⟩
+          exact sinv_flush false h' hw (h.f4 (by simp [hfl])).1 rfl (Or.inr hfl) (h.repOp g w hw hgate)
+        · exact ⟨h.len, h.sync, h.rep, h.repOp, fun hc => by simp [hfl] at hc, h.f4, h.f5, h.f6⟩
+    · -- between ops
+      split
+      · exact h
+      · rename_i op rest hops
+        cases op with
+        | log c =>
+          simp only
+          split
+          · exact sinv_finish h hw rfl (Or.inl rfl) h.f3 h.f4 h.f5 h.f6
+          · split
+            · rename_i hwb
+              simp only [emit_wrapped, emit_buffering, Bool.and_eq_true] at hwb
+              refine sinv_finish h hw rfl (Or.inl rfl) h.f3 h.f4 ?_ ?_
+              · intro hc; simp only [emit_buffering] at hc; rw [hwb.2] at hc; cases hc
+              · exact h.f6
+            · exact sinv_gate h hw rfl (fun hc => by cases hc) (Or.inl rfl) h.f3 h.f4 h.f5 h.f6
+        | startBuffering =>
+          simp only
+          split
+          · exact h
+          · rename_i hnf
+            have hnone : s.flusher = none := by simpa using hnf
+            split
+            · rename_i hwr
+              refine sinv_finish h hw rfl (Or.inl rfl) h.f3 ?_ ?_ ?_
+              · intro _; exact ⟨hwr, rfl⟩
+              · intro hc; cases hc
+              · intro hc; simp only [emit_wrapped] at hc hwr; rw [hwr] at hc; cases hc
+            · refine sinv_finish h hw rfl (Or.inl rfl) h.f3 ?_ ?_ ?_
+              · intro _; exact ⟨rfl, rfl⟩
+              · intro _; rfl
+              · intro hc; cases hc
+        | setLevel lvl =>
+          simp only
+          split
+          · exact h
+          · rename_i hnf
+            have hnone : s.flusher = none := by simpa using hnf
+            split
+            · exact sinv_finish h hw rfl (Or.inl rfl) h.f3 h.f4 h.f5 h.f6
+            · split
+              · exact sinv_finish h hw rfl (Or.inl rfl) h.f3 h.f4 h.f5 h.f6
+              · refine sinv_finish h hw rfl (Or.inl rfl) h.f3 ?_ ?_ ?_
+                · intro hc; simp only [emit_flusher] at hc; rw [hnone] at hc; cases hc
+                · intro _; rfl
+                · intro _; rfl
+        | shutdown => exact sinv_finish h hw rfl (Or.inl rfl) h.f3 h.f4 h.f5 h.f6
+        | flush =>
+          simp only
+          split
+          · exact h
+          · rename_i hnf
+            have hnone : s.flusher = none := by simpa using hnf
+            split
+            · exact sinv_finish h hw rfl (Or.inl rfl) h.f3 h.f4 h.f5 h.f6
+            · rename_i hwr
+              have h' : SInv progs (emit s [.begin g w.idx]) := ⟨h.len, h.sync, h.rep, h.repOp, h.f3, h.f4, h.f5, h.f6⟩
+              exact sinv_flush true h' hw (by simpa using hwr) (h.f3 hnone) (Or.inl hnone) (by rw [hops]; rfl)
+
+
+/-! ### order: what is still to come for each worker -/
+
+/-- sequence numbers of worker `g`'s records that sit in the flusher's batch or in the buffer -/
+def pendSeqs (s : St) (g : Nat) : List Nat := ((s.batch ++ s.buffer).filter (·.g == g)).map (·.c.seq)
+
+/-- sequence numbers of the log calls worker `g` has not finished yet -/
+def futureSeqs (s : St) (g : Nat) : List Nat :=
+  match s.ws[g]? with
+  | some w => logSeqs w.ops
+  | none => []
+
+/-- everything of worker `g` that can still reach the output, in the order it must -/
+def lineSeqs (s : St) (g : Nat) : List Nat := pendSeqs s g ++ futureSeqs s g
+
+theorem pendSeqs_congr {s s' : St} (h : s'.batch ++ s'.buffer = s.batch ++ s.buffer) (g : Nat) :
+    pendSeqs s' g = pendSeqs s g := by
+  simp only [pendSeqs, h]
+
+theorem logSeqs_cons_log (c : LogCall) (rest : List Op) : logSeqs (.log c :: rest) = c.seq :: logSeqs rest := by
+  simp [logSeqs]
+
+theorem logSeqs_cons_other (op : Op) (rest : List Op) (h : ∀ c, op ≠ .log c) : logSeqs (op :: rest) = logSeqs rest := by
+  cases op with
+  | log c => exact absurd rfl (h c)
+  | _ => simp [logSeqs]
+
+theorem futureSeqs_finish {s s' : St} {g : Nat} {w : Worker} (hw : s.ws[g]? = some w) (hws : s'.ws = s.ws) (g' : Nat) :
+    futureSeqs (finishOp s' g w) g' = if g' = g then logSeqs w.ops.tail else futureSeqs s g' := by
+  have hw' : s'.ws[g]? = some w := by rw [hws]; exact hw
+  simp only [futureSeqs, finishOp_eq, setWorker_ws, emit_ws, getElem?_set_worker _ g g' w _ hw']
+  by_cases hgg : g' = g
+  · simp [hgg]
+  · simp [hgg, hws]
+
+theorem futureSeqs_gate {s s' : St} {g : Nat} {w : Worker} {gt : Option Gate} (hw : s.ws[g]? = some w)
+    (hws : s'.ws = s.ws) (g' : Nat) : futureSeqs (setWorker s' g { w with gate := gt }) g' = futureSeqs s g' := by
+  have hw' : s'.ws[g]? = some w := by rw [hws]; exact hw
+  simp only [futureSeqs, setWorker_ws, getElem?_set_worker _ g g' w _ hw']
+  by_cases hgg : g' = g
+  · subst hgg; simp [hw]
+  · simp [hgg, hws]
+
+theorem futureSeqs_congr {s s' : St} (hws : s'.ws = s.ws) (g' : Nat) : futureSeqs s' g' = futureSeqs s g' := by
+  simp only [futureSeqs, hws]
+
+theorem pendSeqs_finish (s' : St) (g : Nat) (w : Worker) (g' : Nat) : pendSeqs (finishOp s' g w) g' = pendSeqs s' g' := rfl
+theorem pendSeqs_gate (s' : St) (g : Nat) (w : Worker) (g' : Nat) : pendSeqs (setWorker s' g w) g' = pendSeqs s' g' := rfl
+
+/-! the order monitor only looks at writes -/
+
+def isWrite : Ev → Bool
+  | .write .. => true
+  | _ => false
+
+theorem orderMonitor_append (progs : List (List Op)) (tr evs : List Ev) :
+    orderMonitor progs (tr ++ evs) = evs.foldl (oStep progs) (orderMonitor progs tr) := by
+  simp [orderMonitor, List.foldl_append]
+
+theorem oStep_nowrite (progs : List (List Op)) (m : OMon) (evs : List Ev) (h : ∀ e ∈ evs, isWrite e = false) :
+    evs.foldl (oStep progs) m = m := by
+  induction evs generalizing m with
+  | nil => rfl
+  | cons e rest ih =>
+    simp only [List.foldl_cons]
+    have he : oStep progs m e = m := by
+      cases e with
+      | write g s i => simp [isWrite] at h
+      | _ => rfl
+    rw [he]
+    exact ih m (fun e' he' => h e' (List.mem_cons_of_mem _ he'))
+
+structure OInv (progs : List (List Op)) (s : St) : Prop where
+  ok : (orderMonitor progs s.trace).ok = true
+  /-- everything written is below everything of the same worker still to come -/
+  below : ∀ (g x : Nat), (g, x) ∈ (orderMonitor progs s.trace).written → ∀ y ∈ lineSeqs s g, x < y
+  /-- … which is itself in increasing order -/
+  chain : ∀ g, (lineSeqs s g).Pairwise (· < ·)
+  /-- a worker blocked in a pass-through write has nothing in the buffer or the flusher's batch -/
+  pass : ∀ (g : Nat) (w : Worker) (r : BRec), s.ws[g]? = some w → w.gate = some (.pass r) →
+    r.g = g ∧ w.ops.head? = some (.log r.c) ∧ pendSeqs s g = []
+  gen : ∀ r ∈ s.batch ++ s.buffer, r.c.seq ∈ loggedSeqs progs r.g
+
+/-- a transition that writes nothing and only shrinks what is to come -/
+theorem oinv_quiet {progs : List (List Op)} {s s' : St} (h : OInv progs s) (evs : List Ev)
+    (htr : s'.trace = s.trace ++ evs) (hnw : ∀ e ∈ evs, isWrite e = false)
+    (hline : ∀ g, (lineSeqs s' g).Sublist (lineSeqs s g))
+    (hpass : ∀ (g : Nat) (w : Worker) (r : BRec), s'.ws[g]? = some w → w.gate = some (.pass r) →
+      r.g = g ∧ w.ops.head? = some (.log r.c) ∧ pendSeqs s' g = [])
+    (hgen : ∀ r ∈ s'.batch ++ s'.buffer, r.c.seq ∈ loggedSeqs progs r.g) : OInv progs s' := by
+  have hm : orderMonitor progs s'.trace = orderMonitor progs s.trace := by
+    rw [htr, orderMonitor_append, oStep_nowrite _ _ _ hnw]
+  refine ⟨by rw [hm]; exact h.ok, ?_, ?_, hpass, hgen⟩
+  · intro g x hx y hy
+    rw [hm] at hx
+    exact h.below g x hx y ((hline g).subset hy)
+  · intro g
+    exact (h.chain g).sublist (hline g)
+
+/-- a transition that writes the head of worker `g0`'s line -/
+theorem oinv_write {progs : List (List Op)} {s s' : St} (h : OInv progs s) (g0 x : Nat) (evs : List Ev)
+    (htr : s'.trace = s.trace ++ (Ev.write g0 x true :: evs)) (hnw : ∀ e ∈ evs, isWrite e = false)
+    (hx : x ∈ loggedSeqs progs g0)
+    (hline0 : lineSeqs s g0 = x :: lineSeqs s' g0)
+    (hline : ∀ g, g ≠ g0 → (lineSeqs s' g).Sublist (lineSeqs s g))
+    (hpass : ∀ (g : Nat) (w : Worker) (r : BRec), s'.ws[g]? = some w → w.gate = some (.pass r) →
+      r.g = g ∧ w.ops.head? = some (.log r.c) ∧ pendSeqs s' g = [])
+    (hgen : ∀ r ∈ s'.batch ++ s'.buffer, r.c.seq ∈ loggedSeqs progs r.g) : OInv progs s' := by
+  have hm : orderMonitor progs s'.trace = oStep progs (orderMonitor progs s.trace) (.write g0 x true) := by
+    rw [htr, orderMonitor_append, List.foldl_cons, oStep_nowrite _ _ _ hnw]
+  have hchain0 := h.chain g0
+  rw [hline0, List.pairwise_cons] at hchain0
+  refine ⟨?_, ?_, ?_, hpass, hgen⟩
+  · rw [hm]
+    simp only [oStep, Bool.and_eq_true, h.ok, true_and, List.all_eq_true, Bool.or_eq_true, Bool.not_eq_true',
+      decide_eq_true_eq, Bool.and_true]
+    refine ⟨by simpa using hx, ?_⟩
+    intro wr hwr
+    by_cases hg : wr.1 = g0
+    · right
+      have : (g0, wr.2) ∈ (orderMonitor progs s.trace).written := by rw [← hg]; exact hwr
+      exact h.below g0 wr.2 this x (by rw [hline0]; simp)
+    · left; simpa using hg
+  · intro g y hy z hz
+    rw [hm] at hy
+    simp only [oStep, List.mem_cons, Prod.mk.injEq] at hy
+    rcases hy with ⟨hg, hyx⟩ | hy
+    · subst hg; subst hyx
+      exact hchain0.1 z hz
+    · by_cases hg : g = g0
+      · subst hg
+        exact h.below g y hy z (by rw [hline0]; exact List.mem_cons_of_mem _ hz)
+      · exact h.below g y hy z ((hline g hg).subset hz)
+  · intro g
+    by_cases hg : g = g0
+    · subst hg; exact hchain0.2
+    · exact (h.chain g).sublist (hline g hg)
+
+
+/-! helpers for the case analysis -/
+
+theorem ops_of_head {w : Worker} {op : Op} (h : w.ops.head? = some op) : w.ops = op :: w.ops.tail := by
+  cases hops : w.ops with
+  | nil => rw [hops] at h; cases h
+  | cons a rest => rw [hops] at h; simp only [List.head?_cons, Option.some.injEq] at h; subst h; rfl
+
+/-- the head op of a synchronised worker is an op of its program -/
+theorem logged_of_sync {progs : List (List Op)} {g : Nat} {w : Worker} {c : LogCall} {rest : List Op}
+    (hsync : w.ops = (progs[g]?.getD []).drop w.idx) (hops : w.ops = .log c :: rest) :
+    c.seq ∈ loggedSeqs progs g := by
+  have hmem : Op.log c ∈ (progs[g]?.getD []) := by
+    have : Op.log c ∈ w.ops := by rw [hops]; simp
+    rw [hsync] at this
+    exact List.mem_of_mem_drop this
+  simp only [loggedSeqs, List.mem_filterMap]
+  exact ⟨.log c, hmem, rfl⟩
+
+theorem pass_after_finish {progs : List (List Op)} {s s' : St} {g : Nat} {w : Worker}
+    (h : OInv progs s) (hw : s.ws[g]? = some w) (hws : s'.ws = s.ws)
+    (hp : ∀ g', g' ≠ g → pendSeqs s g' = [] → pendSeqs s' g' = []) :
+    ∀ (g' : Nat) (wx : Worker) (r : BRec), (finishOp s' g w).ws[g']? = some wx → wx.gate = some (.pass r) →
+      r.g = g' ∧ wx.ops.head? = some (.log r.c) ∧ pendSeqs (finishOp s' g w) g' = [] := by
+  intro g' wx r hx hgate
+  have hw' : s'.ws[g]? = some w := by rw [hws]; exact hw
+  simp only [finishOp_eq, setWorker_ws, emit_ws, getElem?_set_worker _ g g' w _ hw'] at hx
+  by_cases hgg : g' = g
+  · simp only [hgg, if_true, Option.some.injEq] at hx
+    subst hx; cases hgate
+  · simp only [hgg, if_false] at hx
+    rw [hws] at hx
+    obtain ⟨h1, h2, h3⟩ := h.pass g' wx r hx hgate
+    exact ⟨h1, h2, hp g' hgg h3⟩
+
+theorem pass_after_gate {progs : List (List Op)} {s s' : St} {g : Nat} {w : Worker} {gt : Option Gate}
+    (h : OInv progs s) (hw : s.ws[g]? = some w) (hws : s'.ws = s.ws)
+    (hp : ∀ g', g' ≠ g → pendSeqs s g' = [] → pendSeqs s' g' = [])
+    (hg : ∀ r, gt = some (.pass r) → r.g = g ∧ w.ops.head? = some (.log r.c) ∧ pendSeqs s' g = []) :
+    ∀ (g' : Nat) (wx : Worker) (r : BRec), (setWorker s' g { w with gate := gt }).ws[g']? = some wx →
+      wx.gate = some (.pass r) →
+      r.g = g' ∧ wx.ops.head? = some (.log r.c) ∧ pendSeqs (setWorker s' g { w with gate := gt }) g' = [] := by
+  intro g' wx r hx hgate
+  have hw' : s'.ws[g]? = some w := by rw [hws]; exact hw
+  simp only [setWorker_ws, getElem?_set_worker _ g g' w _ hw'] at hx
+  by_cases hgg : g' = g
+  · simp only [hgg, if_true, Option.some.injEq] at hx
+    subst hx
+    subst hgg
+    exact hg r hgate
+  · simp only [hgg, if_false] at hx
+    rw [hws] at hx
+    obtain ⟨h1, h2, h3⟩ := h.pass g' wx r hx hgate
+    exact ⟨h1, h2, hp g' hgg h3⟩
+
+/-- `lineSeqs` after finishing a non-log op without touching batch ++ buffer -/
+theorem lineSeqs_finish_other {s s' : St} {g : Nat} {w : Worker} {op : Op} {rest : List Op}
+    (hw : s.ws[g]? = some w) (hws : s'.ws = s.ws) (hops : w.ops = op :: rest) (hop : ∀ c, op ≠ .log c)
+    (hbb : s'.batch ++ s'.buffer = s.batch ++ s.buffer) (g' : Nat) :
+    lineSeqs (finishOp s' g w) g' = lineSeqs s g' := by
+  simp only [lineSeqs, pendSeqs_finish, pendSeqs_congr hbb, futureSeqs_finish hw hws]
+  by_cases hgg : g' = g
+  · subst hgg
+    simp only [if_true, futureSeqs, hw, hops, List.tail_cons, logSeqs_cons_other op rest hop]
+  · simp [hgg]
+
+/-- `lineSeqs` after finishing a log op whose record is dropped (not accepted, or its write failed) -/
+theorem lineSeqs_finish_drop {s s' : St} {g : Nat} {w : Worker} {c : LogCall} {rest : List Op}
+    (hw : s.ws[g]? = some w) (hws : s'.ws = s.ws) (hops : w.ops = .log c :: rest)
+    (hbb : s'.batch ++ s'.buffer = s.batch ++ s.buffer) (g' : Nat) :
+    (lineSeqs (finishOp s' g w) g').Sublist (lineSeqs s g') := by
+  simp only [lineSeqs, pendSeqs_finish, pendSeqs_congr hbb, futureSeqs_finish hw hws]
+  by_cases hgg : g' = g
+  · subst hgg
+    simp only [if_true, futureSeqs, hw, hops, List.tail_cons, logSeqs_cons_log]
+    exact List.Sublist.append_left (List.sublist_cons_self _ _) _
+  · simp [hgg]
+
+theorem pendSeqs_nil_of_empty {s : St} (hb : s.batch = []) (hbuf : s.buffer = []) (g : Nat) : pendSeqs s g = [] := by
+  simp [pendSeqs, hb, hbuf]
+
+/-- nothing is pending unless the logger is wrapped and buffering -/
+theorem empty_of_not_buffering {progs : List (List Op)} {s : St} (hs : SInv progs s)
+    (h : (s.wrapped && s.buffering) = false) : s.batch = [] ∧ s.buffer = [] := by
+  have hb : s.buffering = false := by
+    cases hwr : s.wrapped with
+    | false => exact hs.f6 hwr
+    | true => simpa [hwr] using h
+  refine ⟨hs.f3 ?_, hs.f5 hb⟩
+  cases hf : s.flusher with
+  | none => rfl
+  | some x =>
+    have := (hs.f4 (by simp [hf])).2
+    rw [hb] at this; cases this
+
+
+theorem logSeqs_tail_sublist (ops : List Op) : (logSeqs ops.tail).Sublist (logSeqs ops) := by
+  cases ops with
+  | nil => simp
+  | cons op rest =>
+    simp only [List.tail_cons, logSeqs]
+    exact List.Sublist.filterMap _ (List.sublist_cons_self _ _)
+
+/-- finishing any op without touching batch ++ buffer only shrinks what is to come -/
+theorem lineSeqs_finish_sub {s s' : St} {g : Nat} {w : Worker}
+    (hw : s.ws[g]? = some w) (hws : s'.ws = s.ws)
+    (hbb : s'.batch ++ s'.buffer = s.batch ++ s.buffer) (g' : Nat) :
+    (lineSeqs (finishOp s' g w) g').Sublist (lineSeqs s g') := by
+  simp only [lineSeqs, pendSeqs_finish, pendSeqs_congr hbb, futureSeqs_finish hw hws]
+  by_cases hgg : g' = g
+  · subst hgg
+    simp only [if_true, futureSeqs, hw]
+    exact List.Sublist.append_left (logSeqs_tail_sublist _) _
+  · simp [hgg]
+
+theorem lineSeqs_gate_eq {s s' : St} {g : Nat} {w : Worker} {gt : Option Gate}
+    (hw : s.ws[g]? = some w) (hws : s'.ws = s.ws)
+    (hbb : s'.batch ++ s'.buffer = s.batch ++ s.buffer) (g' : Nat) :
+    lineSeqs (setWorker s' g { w with gate := gt }) g' = lineSeqs s g' := by
+  simp only [lineSeqs, pendSeqs_gate, pendSeqs_congr hbb, futureSeqs_gate hw hws]
+
+/-- `OInv` across finishing an op quietly -/
+theorem oinv_finish_quiet {progs : List (List Op)} {s s' : St} {g : Nat} {w : Worker}
+    (h : OInv progs s) (hw : s.ws[g]? = some w) (hws : s'.ws = s.ws) (evs : List Ev)
+    (htr : s'.trace = s.trace ++ evs) (hnw : ∀ e ∈ evs, isWrite e = false)
+    (hbb : s'.batch ++ s'.buffer = s.batch ++ s.buffer) : OInv progs (finishOp s' g w) := by
+  apply oinv_quiet h (evs ++ [.done g w.idx])
+  · simp [finishOp_eq, htr]
+  · intro e he
+    rcases List.mem_append.mp he with he | he
+    · exact hnw e he
+    · simp only [List.mem_singleton] at he; subst he; rfl
+  · exact lineSeqs_finish_sub hw hws hbb
+  · exact pass_after_finish h hw hws (fun g' _ hp => by rw [pendSeqs_congr hbb]; exact hp)
+  · intro r hr
+    have : r ∈ s'.batch ++ s'.buffer := hr
+    rw [hbb] at this
+    exact h.gen r this
+
+theorem oinv_flush {progs : List (List Op)} {s : St} {g : Nat} {w : Worker} (first : Bool)
+    (h : OInv progs s) (hw : s.ws[g]? = some w) (hb : s.batch = []) :
+    OInv progs (flushContinue (flushTake Flags.fixed s first) g w) := by
+  unfold flushTake
+  simp only [Flags.fixed, if_true]
+  cases hbuf : s.buffer with
+  | nil =>
+    simp only [flushContinue, hb, List.isEmpty_nil, if_true]
+    exact oinv_finish_quiet h hw rfl [] (by simp) (by simp) (by simp [hb, hbuf])
+  | cons r rest =>
+    simp only [flushContinue, List.isEmpty_cons, Bool.false_eq_true, if_false]
+    have hbb : (r :: rest) ++ ([] : List BRec) = s.batch ++ s.buffer := by simp [hb, hbuf]
+    let s1 : St := { s with buffer := [], batch := r :: rest, flusher := some g }
+    have hbb1 : s1.batch ++ s1.buffer = s.batch ++ s.buffer := hbb
+    show OInv progs (setWorker s1 g { w with gate := some .replay })
+    apply oinv_quiet h []
+    · simp [s1]
+    · simp
+    · intro g'
+      rw [lineSeqs_gate_eq (s' := s1) hw rfl hbb1]
+      exact List.Sublist.refl _
+    · exact pass_after_gate (s' := s1) h hw rfl (fun g' _ hp => by rw [pendSeqs_congr hbb1]; exact hp)
+        (fun r' hr' => by cases hr')
+    · intro r' hr'
+      have : r' ∈ s1.batch ++ s1.buffer := hr'
+      rw [hbb1] at this
+      exact h.gen r' this
+
+
+@[simp] theorem pendSeqs_emit (s : St) (evs : List Ev) (g : Nat) : pendSeqs (emit s evs) g = pendSeqs s g := rfl
+@[simp] theorem futureSeqs_emit (s : St) (evs : List Ev) (g : Nat) : futureSeqs (emit s evs) g = futureSeqs s g := rfl
+@[simp] theorem lineSeqs_emit (s : St) (evs : List Ev) (g : Nat) : lineSeqs (emit s evs) g = lineSeqs s g := rfl
+
+theorem writeEv_fixed (replayed : Bool) (r : BRec) :
+    writeEv Flags.fixed replayed r = if r.c.fail then [] else [.write r.g r.c.seq true] := by
+  simp [writeEv, Flags.fixed]
+
+theorem pendSeqs_cons (s : St) (r : BRec) (rest : List BRec) (hb : s.batch = r :: rest) (g : Nat) :
+    pendSeqs s g = if r.g = g then r.c.seq :: pendSeqs { s with batch := rest } g else pendSeqs { s with batch := rest } g := by
+  simp only [pendSeqs, hb, List.cons_append, List.filter_cons]
+  by_cases hg : r.g = g
+  · simp [hg]
+  · simp [hg]
+
+/-- emitting non-write events changes nothing the order invariant looks at -/
+theorem oinv_emit {progs : List (List Op)} {s : St} (h : OInv progs s) (evs : List Ev)
+    (hnw : ∀ e ∈ evs, isWrite e = false) : OInv progs (emit s evs) :=
+  oinv_quiet h evs rfl hnw (fun _ => List.Sublist.refl _) h.pass h.gen
+
+/-- the flusher takes the head of its batch to the output (or the environment fails that write) -/
+theorem oinv_pop {progs : List (List Op)} {s : St} {r : BRec} {rest : List BRec} (h : OInv progs s)
+    (hb : s.batch = r :: rest) :
+    OInv progs { (emit s (writeEv Flags.fixed true r)) with batch := rest } := by
+  have hpc := pendSeqs_cons s r rest hb
+  have hpass : ∀ (g : Nat) (w : Worker) (r' : BRec), s.ws[g]? = some w → w.gate = some (.pass r') →
+      r'.g = g ∧ w.ops.head? = some (.log r'.c) ∧ pendSeqs { s with batch := rest } g = [] := by
+    intro g w r' hw hgate
+    obtain ⟨h1, h2, h3⟩ := h.pass g w r' hw hgate
+    refine ⟨h1, h2, ?_⟩
+    rw [hpc g] at h3
+    split at h3
+    · cases h3
+    · exact h3
+  have hgen : ∀ r' ∈ rest ++ s.buffer, r'.c.seq ∈ loggedSeqs progs r'.g := by
+    intro r' hr'
+    apply h.gen
+    rw [hb]
+    exact List.mem_cons_of_mem _ hr'
+  rw [writeEv_fixed]
+  by_cases hfail : r.c.fail = true
+  · simp only [hfail, if_true]
+    apply oinv_quiet h []
+    · simp
+    · simp
+    · intro g
+      show (pendSeqs { s with batch := rest } g ++ futureSeqs s g).Sublist (pendSeqs s g ++ futureSeqs s g)
+      rw [hpc g]
+      split
+      · exact List.Sublist.append_right (List.sublist_cons_self _ _) _
+      · exact List.Sublist.refl _
+    · exact hpass
+    · exact hgen
+  · simp only [hfail, Bool.false_eq_true, if_false]
+    apply oinv_write h r.g r.c.seq []
+    · simp
+    · simp
+    · exact h.gen r (by rw [hb]; simp)
+    · show pendSeqs s r.g ++ futureSeqs s r.g = r.c.seq :: (pendSeqs { s with batch := rest } r.g ++ futureSeqs s r.g)
+      rw [hpc r.g]; simp
+    · intro g hg
+      show (pendSeqs { s with batch := rest } g ++ futureSeqs s g).Sublist (pendSeqs s g ++ futureSeqs s g)
+      rw [hpc g]
+      have : ¬ r.g = g := fun e => hg e.symm
+      simp [this]
+    · exact hpass
+    · exact hgen
+
+theorem pendSeqs_snoc (s : St) (r : BRec) (g : Nat) :
+    pendSeqs { s with buffer := s.buffer ++ [r] } g = if r.g = g then pendSeqs s g ++ [r.c.seq] else pendSeqs s g := by
+  simp only [pendSeqs, ← List.append_assoc, List.filter_append, List.map_append]
+  by_cases hg : r.g = g
+  · simp [hg]
+  · simp [hg]
+
+/-- the order invariant is preserved by every segment of every worker -/
+theorem oinv_advance {progs : List (List Op)} {s : St} (g : Nat) (hs : SInv progs s) (h : OInv progs s) :
+    OInv progs (advance Flags.fixed s g) := by
+  unfold advance
+  split
+  · exact h
+  · rename_i w hw
+    split
+    · -- pass gate: the stalled write completes
+      rename_i r hgate
+      obtain ⟨hrg, hhead, hpend⟩ := h.pass g w r hw hgate
+      have hops := ops_of_head hhead
+      rw [writeEv_fixed]
+      by_cases hfail : r.c.fail = true
+      · simp only [hfail, if_true]
+        exact oinv_finish_quiet h hw rfl [] (by simp) (by simp) rfl
+      · simp only [hfail, Bool.false_eq_true, if_false]
+        apply oinv_write h g r.c.seq [.done g w.idx]
+        · simp [finishOp_eq, hrg]
+        · simp [isWrite]
+        · exact logged_of_sync (hs.sync g w hw) hops
+        · have hfut : futureSeqs (finishOp (emit s [Ev.write r.g r.c.seq true]) g w) g = logSeqs w.ops.tail := by
+            rw [futureSeqs_finish (s' := emit s [Ev.write r.g r.c.seq true]) hw rfl]; simp
+          have hfut0 : futureSeqs s g = r.c.seq :: logSeqs w.ops.tail := by
+            have := congrArg logSeqs hops
+            rw [logSeqs_cons_log] at this
+            simp only [futureSeqs, hw]
+            exact this
+          simp only [lineSeqs, pendSeqs_finish, pendSeqs_emit, hpend, List.nil_append, hfut, hfut0]
+        · intro g' hg'
+          have := lineSeqs_finish_sub (s' := emit s [Ev.write r.g r.c.seq true]) hw rfl rfl g'
+          exact this
+        · exact pass_after_finish (s' := emit s [Ev.write r.g r.c.seq true]) h hw rfl (fun g' _ hp => hp)
+        · exact h.gen
+    · -- replay gate
+      rename_i hgate
+      split
+      · rename_i hb
+        exact oinv_flush false h hw hb
+      · rename_i r rest hb
+        simp only [Flags.fixed, Bool.not_true, Bool.and_false, Bool.false_eq_true, if_false]
+        have hpop := oinv_pop h hb
+        split
+        · rename_i hemp
+          have hrest : rest = [] := by simpa using hemp
+          subst hrest
+          exact oinv_flush false hpop hw rfl
+        · exact hpop
+    · -- between ops
+      split
+      · exact h
+      · rename_i op rest hops
+        have hbegin : OInv progs (emit s [.begin g w.idx]) := oinv_emit h _ (by simp [isWrite])
+        cases op with
+        | log c =>
+          simp only
+          split
+          · exact oinv_finish_quiet h hw rfl [.begin g w.idx] rfl (by simp [isWrite]) rfl
+          · split
+            · -- buffered
+              let s1 : St := { (emit s [.begin g w.idx]) with buffer := s.buffer ++ [{ g := g, c := c }] }
+              show OInv progs (finishOp s1 g w)
+              have hps := pendSeqs_snoc (emit s [.begin g w.idx]) { g := g, c := c }
+              apply oinv_quiet h [.begin g w.idx, .done g w.idx]
+              · simp [finishOp_eq, s1]
+              · simp [isWrite]
+              · intro g'
+                have hp : pendSeqs (finishOp s1 g w) g' = if g = g' then pendSeqs s g' ++ [c.seq] else pendSeqs s g' := hps g'
+                have hf := futureSeqs_finish (s' := s1) hw rfl g'
+                simp only [lineSeqs, hp, hf]
+                by_cases hgg : g' = g
+                · subst hgg
+                  simp only [if_true, futureSeqs, hw, hops, List.tail_cons, logSeqs_cons_log, List.append_assoc,
+                    List.singleton_append]
+                  exact List.Sublist.refl _
+                · have : ¬ g = g' := fun e => hgg e.symm
+                  simp only [this, hgg, if_false]
+                  exact List.Sublist.refl _
+              · apply pass_after_finish (s' := s1) h hw rfl
+                intro g' hgg hp
+                have : pendSeqs s1 g' = if g = g' then pendSeqs s g' ++ [c.seq] else pendSeqs s g' := hps g'
+                rw [this]
+                have : ¬ g = g' := fun e => hgg e.symm
+                simp [this, hp]
+              · intro r hr
+                have : r ∈ s.batch ++ (s.buffer ++ [{ g := g, c := c }]) := hr
+                rw [← List.append_assoc, List.mem_append, List.mem_singleton] at this
+                rcases this with hr | hr
+                · exact h.gen r hr
+                · subst hr
+                  exact logged_of_sync (hs.sync g w hw) hops
+            · -- pass-through: blocked in the final handler
+              rename_i hnb
+              have hemp := empty_of_not_buffering hs (s := s) (by simpa using hnb)
+              apply oinv_quiet h [.begin g w.idx]
+              · simp
+              · simp [isWrite]
+              · intro g'
+                rw [lineSeqs_gate_eq (s' := emit s [.begin g w.idx]) hw rfl rfl]
+                exact List.Sublist.refl _
+              · apply pass_after_gate (s' := emit s [.begin g w.idx]) h hw rfl (fun g' _ hp => hp)
+                intro r hr
+                simp only [Option.some.injEq, Gate.pass.injEq] at hr
+                subst hr
+                exact ⟨rfl, by rw [hops]; rfl, pendSeqs_nil_of_empty hemp.1 hemp.2 g⟩
+              · exact h.gen
+        | startBuffering =>
+          simp only
+          split
+          · exact h
+          · split
+            · exact oinv_finish_quiet (s' := { (emit s [.begin g w.idx]) with buffering := true }) h hw rfl
+                [.begin g w.idx] rfl (by simp [isWrite]) rfl
+            · rename_i hwr
+              have hbuf : s.buffer = [] := hs.f5 (hs.f6 (by simpa using hwr))
+              exact oinv_finish_quiet
+                (s' := { (emit s [.begin g w.idx]) with wrapped := true, buffering := true, buffer := [] }) h hw rfl
+                [.begin g w.idx] rfl (by simp [isWrite]) (by simp [hbuf])
+        | setLevel lvl =>
+          simp only
+          split
+          · exact h
+          · split
+            · exact oinv_finish_quiet h hw rfl [.begin g w.idx] rfl (by simp [isWrite]) rfl
+            · split
+              · exact oinv_finish_quiet (s' := { (emit s [.begin g w.idx]) with level := lvl }) h hw rfl
+                  [.begin g w.idx] rfl (by simp [isWrite]) rfl
+              · rename_i hkeep
+                have hemp := empty_of_not_buffering hs (s := s) (by simpa [Flags.fixed] using hkeep)
+                exact oinv_finish_quiet
+                  (s' := { (emit s [.begin g w.idx]) with level := lvl, wrapped := false, buffering := false, buffer := [] })
+                  h hw rfl [.begin g w.idx] rfl (by simp [isWrite]) (by simp [hemp.2])
+        | shutdown =>
+          exact oinv_finish_quiet (s' := { (emit s [.begin g w.idx]) with shutdown := true }) h hw rfl
+            [.begin g w.idx] rfl (by simp [isWrite]) rfl
+        | flush =>
+          simp only
+          split
+          · exact h
+          · rename_i hnf
+            have hnone : s.flusher = none := by simpa using hnf
+            split
+            · exact oinv_finish_quiet h hw rfl [.begin g w.idx] rfl (by simp [isWrite]) rfl
+            · exact oinv_flush true hbegin hw (hs.f3 hnone)
+
+
+/-! ### delivery -/
+
+theorem deliveryMonitor_append (custom : Bool) (progs : List (List Op)) (tr evs : List Ev) :
+    deliveryMonitor custom progs (tr ++ evs) = evs.foldl (dStep custom progs) (deliveryMonitor custom progs tr) := by
+  simp [deliveryMonitor, List.foldl_append]
+
+/-- the op a synchronised worker stands at is the op of its program at its counter -/
+theorem opAt_of_sync {progs : List (List Op)} {g : Nat} {w : Worker} {op : Op} {rest : List Op}
+    (hsync : w.ops = (progs[g]?.getD []).drop w.idx) (hops : w.ops = op :: rest) :
+    opAt progs g w.idx = some op := by
+  unfold opAt
+  cases hp : progs[g]? with
+  | none => rw [hp] at hsync; simp at hsync; rw [hsync] at hops; cases hops
+  | some p =>
+    rw [hp] at hsync
+    simp only [Option.getD_some] at hsync
+    simp only [Option.bind_some]
+    have : (p.drop w.idx)[0]? = some op := by rw [← hsync, hops]; rfl
+    rw [List.getElem?_drop] at this
+    simpa using this
+
+/-- relation between the machine state and the delivery monitor's state -/
+structure DRel (custom : Bool) (s : St) (m : DMon) : Prop where
+  lvl : m.level = s.level
+  sd : m.shutdown = s.shutdown
+  cust : s.custom = custom
+  ok : m.ok = true
+  /-- calls in progress are the workers blocked in a pass-through write -/
+  inCall : ∀ (g i : Nat) (b : Bool), (g, i, b) ∈ m.inCall →
+    ∃ w r, s.ws[g]? = some w ∧ w.gate = some (.pass r) ∧ w.idx = i ∧ (b = true → r.c.fail = false)
+  /-- a returned call that must be delivered is written or waits (unfailing) in the batch or the buffer -/
+  ret : ∀ (g x : Nat), (g, x) ∈ m.returned →
+    (g, x) ∈ m.written ∨ ∃ r ∈ s.batch ++ s.buffer, r.g = g ∧ r.c.seq = x ∧ r.c.fail = false
+  snaps : ∀ (g i : Nat) (snap : List (Nat × Nat)), (g, i, snap) ∈ m.flushes → ∀ gs ∈ snap, gs ∈ m.returned
+
+/-- `done g i` of an op that is neither a log call nor a flush leaves the monitor alone -/
+theorem dStep_done_other (custom : Bool) (progs : List (List Op)) (m : DMon) (g i : Nat) (op : Op)
+    (hop : opAt progs g i = some op) (h1 : ∀ c, op ≠ .log c) (h2 : op ≠ .flush) :
+    dStep custom progs m (.done g i) = m := by
+  simp only [dStep, hop]
+  cases op with
+  | log c => exact absurd rfl (h1 c)
+  | flush => exact absurd rfl h2
+  | _ => rfl
+
+/-- when nothing is pending every returned call has been written, so a FlushBuffer may return -/
+theorem flush_done_ok {custom : Bool} {s : St} {m : DMon} (h : DRel custom s m) (hemp : s.batch ++ s.buffer = [])
+    (g i : Nat) :
+    (m.ok && (m.flushes.filter fun x => x.1 == g && x.2.1 == i).all fun x => x.2.2.all fun gs => m.written.contains gs) = true := by
+  simp only [h.ok, Bool.true_and, List.all_eq_true, List.mem_filter]
+  intro x hx gs hgs
+  have hret := h.snaps x.1 x.2.1 x.2.2 hx.1 gs hgs
+  rcases h.ret gs.1 gs.2 hret with hw | ⟨r, hr, _⟩
+  · simpa using hw
+  · rw [hemp] at hr; cases hr
+
+
+/-- no call of worker `g` is in progress unless `g` is blocked in a pass-through write -/
+theorem inCall_none {custom : Bool} {s : St} {m : DMon} (h : DRel custom s m) {g : Nat} {w : Worker}
+    (hw : s.ws[g]? = some w) (hgate : ∀ r, w.gate ≠ some (.pass r)) : ∀ i b, (g, i, b) ∉ m.inCall := by
+  intro i b hmem
+  obtain ⟨w', r, hw', hg', _⟩ := h.inCall g i b hmem
+  rw [hw] at hw'; cases hw'
+  exact hgate r hg'
+
+theorem any_inCall_false {l : List (Nat × Nat × Bool)} {g i : Nat} (hno : ∀ i b, (g, i, b) ∉ l) :
+    (l.any fun x => x.1 == g && x.2.1 == i && x.2.2) = false := by
+  rw [List.any_eq_false]
+  intro x hx
+  simp only [Bool.and_eq_true, beq_iff_eq, not_and, Bool.not_eq_true]
+  intro h1
+  exact absurd hx (by rw [show x = (g, i, x.2.2) from by rw [← h1.1, ← h1.2]]; exact hno i x.2.2)
+
+/-- worker `g` moves (its gate, its program counter) and global flags change; no call of `g` is in
+    progress; the monitor changes at most its level and shutdown flag, in step with the state -/
+theorem drel_setws {custom : Bool} {s s' : St} {m m' : DMon} {g : Nat} {w w' : Worker}
+    (h : DRel custom s m) (hw : s.ws[g]? = some w) (hws : s'.ws = s.ws.set g w')
+    (hno : ∀ i b, (g, i, b) ∉ m.inCall)
+    (hic : m'.inCall = m.inCall) (hr : m'.returned = m.returned) (hwr : m'.written = m.written)
+    (hfl : m'.flushes = m.flushes) (hok : m'.ok = m.ok)
+    (hl : m'.level = s'.level) (hsd : m'.shutdown = s'.shutdown) (hc : s'.custom = s.custom)
+    (hbb : s'.batch ++ s'.buffer = s.batch ++ s.buffer) : DRel custom s' m' := by
+  refine ⟨hl, hsd, by rw [hc]; exact h.cust, by rw [hok]; exact h.ok, ?_, ?_, ?_⟩
+  · intro g' i b hmem
+    rw [hic] at hmem
+    obtain ⟨wx, r, hwx, hg, hi, hb⟩ := h.inCall g' i b hmem
+    have hne : g' ≠ g := fun e => hno i b (e ▸ hmem)
+    refine ⟨wx, r, ?_, hg, hi, hb⟩
+    rw [hws, getElem?_set_worker _ g g' w _ hw]
+    simp [hne, hwx]
+  · intro g' x hmem
+    rw [hr] at hmem
+    rw [hwr]
+    rcases h.ret g' x hmem with hwr' | ⟨r, hr', hrest⟩
+    · exact Or.inl hwr'
+    · exact Or.inr ⟨r, by rw [hbb]; exact hr', hrest⟩
+  · intro g' i snap hmem gs hgs
+    rw [hfl] at hmem
+    rw [hr]
+    exact h.snaps g' i snap hmem gs hgs
+
+/-- `s'` is reached from `s` emitting some events, and the monitor that has read them is related to `s'` -/
+def DStepTo (custom : Bool) (progs : List (List Op)) (s : St) (m : DMon) (s' : St) : Prop :=
+  ∃ evs, s'.trace = s.trace ++ evs ∧ DRel custom s' (evs.foldl (dStep custom progs) m)
+
+theorem dstep_refl {custom : Bool} {progs : List (List Op)} {s : St} {m : DMon} (h : DRel custom s m) :
+    DStepTo custom progs s m s := ⟨[], by simp, h⟩
+
+/-- the `FlushBuffer` of worker `g` looks at the buffer (at its beginning, or after a batch) -/
+theorem drel_flush {custom : Bool} {progs : List (List Op)} {s : St} {m : DMon} {g : Nat} {w : Worker} (first : Bool)
+    (h : DRel custom s m) (hw : s.ws[g]? = some w) (hb : s.batch = [])
+    (hgate : ∀ r, w.gate ≠ some (.pass r)) (hop : opAt progs g w.idx = some .flush) :
+    DStepTo custom progs s m (flushContinue (flushTake Flags.fixed s first) g w) := by
+  have hno := inCall_none h hw hgate
+  unfold flushTake
+  simp only [Flags.fixed, if_true]
+  cases hbuf : s.buffer with
+  | nil =>
+    simp only [flushContinue, hb, List.isEmpty_nil, if_true]
+    refine ⟨[.done g w.idx], by simp [finishOp_eq], ?_⟩
+    simp only [List.foldl_cons, List.foldl_nil, dStep, hop]
+    have hok := flush_done_ok h (by simp [hb, hbuf]) g w.idx
+    refine ⟨h.lvl, h.sd, h.cust, hok, ?_, ?_, ?_⟩
+    · intro g' i b hmem
+      obtain ⟨wx, r, hwx, hg, hi, hbf⟩ := h.inCall g' i b hmem
+      have hne : g' ≠ g := fun e => hno i b (e ▸ hmem)
+      refine ⟨wx, r, ?_, hg, hi, hbf⟩
+      simp only [finishOp_eq, setWorker_ws, emit_ws, getElem?_set_worker _ g g' w _ hw]
+      simp [hne, hwx]
+    · intro g' x hmem
+      rcases h.ret g' x hmem with hwr | ⟨r, hr, _⟩
+      · exact Or.inl hwr
+      · rw [hb, hbuf] at hr; cases hr
+    · intro g' i snap hmem gs hgs
+      exact h.snaps g' i snap (List.mem_filter.mp hmem).1 gs hgs
+  | cons r rest =>
+    simp only [flushContinue, List.isEmpty_cons, Bool.false_eq_true, if_false]
+    refine ⟨[], by simp, ?_⟩
+    simp only [List.foldl_nil]
+    exact drel_setws (w' := { w with gate := some .replay }) h hw rfl hno rfl rfl rfl rfl rfl h.lvl h.sd rfl
+      (by simp [hb, hbuf])
+
+
+theorem dstep_trans {custom : Bool} {progs : List (List Op)} {s s1 s2 : St} {m : DMon}
+    (h1 : DStepTo custom progs s m s1) (h2 : ∀ m1, DRel custom s1 m1 → DStepTo custom progs s1 m1 s2) :
+    DStepTo custom progs s m s2 := by
+  obtain ⟨evs1, htr1, hr1⟩ := h1
+  obtain ⟨evs2, htr2, hr2⟩ := h2 _ hr1
+  exact ⟨evs1 ++ evs2, by rw [htr2, htr1, List.append_assoc], by rw [List.foldl_append]; exact hr2⟩
+
+/-- finishing an op that is neither a log call nor a flush, with global flags changing in step -/
+theorem drel_finish_plain {custom : Bool} {progs : List (List Op)} {s s' : St} {m m' : DMon} {g : Nat} {w : Worker}
+    {op : Op} (h : DRel custom s m) (hw : s.ws[g]? = some w) (hgate : ∀ r, w.gate ≠ some (.pass r))
+    (hop : opAt progs g w.idx = some op) (h1 : ∀ c, op ≠ .log c) (h2 : op ≠ .flush)
+    (hm : dStep custom progs m (.begin g w.idx) = m')
+    (hws : s'.ws = s.ws) (htr : s'.trace = s.trace ++ [.begin g w.idx])
+    (hic : m'.inCall = m.inCall) (hr : m'.returned = m.returned) (hwr : m'.written = m.written)
+    (hfl : m'.flushes = m.flushes) (hok : m'.ok = m.ok)
+    (hl : m'.level = s'.level) (hsd : m'.shutdown = s'.shutdown) (hc : s'.custom = s.custom)
+    (hbb : s'.batch ++ s'.buffer = s.batch ++ s.buffer) :
+    DStepTo custom progs s m (finishOp s' g w) := by
+  refine ⟨[.begin g w.idx, .done g w.idx], by simp [finishOp_eq, htr], ?_⟩
+  simp only [List.foldl_cons, List.foldl_nil, hm, dStep_done_other custom progs m' g w.idx op hop h1 h2]
+  exact drel_setws (s' := finishOp s' g w) (w' := { ops := w.ops.tail, idx := w.idx + 1, gate := none }) h hw
+    (by simp [finishOp_eq, hws]) (inCall_none h hw hgate) hic hr hwr hfl hok hl hsd hc hbb
+
+/-- a log call of worker `g` that the monitor says must be delivered is one the logger accepts -/
+theorem accepted_of_must {level : Nat} {shutdown : Bool} {c : LogCall} (h : mustDeliver level shutdown c = true) :
+    (decide (level ≤ c.lvl) && (c.derived || !shutdown)) = true ∧ c.fail = false := by
+  simp only [mustDeliver, Bool.and_eq_true, decide_eq_true_eq, Bool.not_eq_true'] at h
+  obtain ⟨⟨h1, h2⟩, h3⟩ := h
+  simp [h1, h2, h3]
+
+theorem mem_filter_not {l : List (Nat × Nat × Bool)} {g i : Nat} {x : Nat × Nat × Bool}
+    (hx : x ∈ l.filter (fun x => !(x.1 == g && x.2.1 == i))) : x ∈ l ∧ ¬ (x.1 = g ∧ x.2.1 = i) := by
+  simp only [List.mem_filter, Bool.not_eq_true', Bool.and_eq_false_iff, beq_eq_false_iff_ne] at hx
+  refine ⟨hx.1, ?_⟩
+  rintro ⟨h1, h2⟩
+  rcases hx.2 with h | h
+  · exact h h1
+  · exact h h2
+
+/-- the flusher takes the head of its batch to the output (or the environment fails that write) -/
+theorem drel_pop {custom : Bool} {progs : List (List Op)} {s : St} {m : DMon} {r : BRec} {rest : List BRec}
+    (h : DRel custom s m) (hb : s.batch = r :: rest) :
+    DStepTo custom progs s m { (emit s (writeEv Flags.fixed true r)) with batch := rest } := by
+  refine ⟨writeEv Flags.fixed true r, rfl, ?_⟩
+  rw [writeEv_fixed]
+  by_cases hfail : r.c.fail = true
+  · simp only [hfail, if_true, List.foldl_nil]
+    refine ⟨h.lvl, h.sd, h.cust, h.ok, h.inCall, ?_, h.snaps⟩
+    intro g x hmem
+    rcases h.ret g x hmem with hwr | ⟨r', hr', h1, h2, h3⟩
+    · exact Or.inl hwr
+    · rw [hb] at hr'
+      simp only [List.cons_append, List.mem_cons] at hr'
+      rcases hr' with hr' | hr'
+      · subst hr'; rw [hfail] at h3; cases h3
+      · exact Or.inr ⟨r', hr', h1, h2, h3⟩
+  · simp only [hfail, Bool.false_eq_true, if_false, List.foldl_cons, List.foldl_nil, dStep]
+    refine ⟨h.lvl, h.sd, h.cust, h.ok, h.inCall, ?_, h.snaps⟩
+    intro g x hmem
+    rcases h.ret g x hmem with hwr | ⟨r', hr', h1, h2, h3⟩
+    · exact Or.inl (List.mem_cons_of_mem _ hwr)
+    · rw [hb] at hr'
+      simp only [List.cons_append, List.mem_cons] at hr'
+      rcases hr' with hr' | hr'
+      · subst hr'; left; rw [h1, h2]; exact List.mem_cons_self ..
+      · exact Or.inr ⟨r', hr', h1, h2, h3⟩
+
+
+/-- a `FlushBuffer` returns while nothing is pending -/
+theorem drel_flush_done {custom : Bool} {progs : List (List Op)} {s : St} {m : DMon} {g : Nat} {w : Worker}
+    (h : DRel custom s m) (hw : s.ws[g]? = some w) (hemp : s.batch ++ s.buffer = [])
+    (hgate : ∀ r, w.gate ≠ some (.pass r)) (hop : opAt progs g w.idx = some .flush) :
+    DStepTo custom progs s m (finishOp s g w) := by
+  have hno := inCall_none h hw hgate
+  refine ⟨[.done g w.idx], by simp [finishOp_eq], ?_⟩
+  simp only [List.foldl_cons, List.foldl_nil, dStep, hop]
+  have hok := flush_done_ok h hemp g w.idx
+  refine ⟨h.lvl, h.sd, h.cust, hok, ?_, ?_, ?_⟩
+  · intro g' i b hmem
+    obtain ⟨wx, r, hwx, hg, hi, hbf⟩ := h.inCall g' i b hmem
+    have hne : g' ≠ g := fun e => hno i b (e ▸ hmem)
+    refine ⟨wx, r, ?_, hg, hi, hbf⟩
+    simp only [finishOp_eq, setWorker_ws, emit_ws, getElem?_set_worker _ g g' w _ hw]
+    simp [hne, hwx]
+  · intro g' x hmem
+    rcases h.ret g' x hmem with hwr | ⟨r, hr, _⟩
+    · exact Or.inl hwr
+    · rw [hemp] at hr; cases hr
+  · intro g' i snap hmem gs hgs
+    exact h.snaps g' i snap (List.mem_filter.mp hmem).1 gs hgs
+
+/-- the delivery relation is preserved by every segment of every worker -/
+theorem drel_advance {custom : Bool} {progs : List (List Op)} {s : St} {m : DMon} (g : Nat)
+    (hs : SInv progs s) (ho : OInv progs s) (h : DRel custom s m) :
+    DStepTo custom progs s m (advance Flags.fixed s g) := by
+  unfold advance
+  split
+  · exact dstep_refl h
+  · rename_i w hw
+    split
+    · -- pass gate: the stalled write completes and the call returns
+      rename_i r hgate
+      obtain ⟨hrg, hhead, _⟩ := ho.pass g w r hw hgate
+      have hops := ops_of_head hhead
+      have hop := opAt_of_sync (hs.sync g w hw) hops
+      -- the flag the monitor recorded for this call implies the write does not fail
+      have hflag : ∀ i b, (g, i, b) ∈ m.inCall → i = w.idx ∧ (b = true → r.c.fail = false) := by
+        intro i b hmem
+        obtain ⟨w', r', hw', hg', hi, hb⟩ := h.inCall g i b hmem
+        rw [hw] at hw'; cases hw'
+        rw [hgate] at hg'; cases hg'
+        exact ⟨hi.symm, hb⟩
+      refine ⟨writeEv Flags.fixed false r ++ [.done g w.idx], by simp [finishOp_eq], ?_⟩
+      rw [writeEv_fixed, List.foldl_append]
+      simp only [List.foldl_cons, List.foldl_nil]
+      -- the monitor after the write event (if any)
+      generalize hm1 : (List.foldl (dStep custom progs) m (if r.c.fail = true then [] else [Ev.write r.g r.c.seq true])) = m1
+      have hm1' : m1.level = m.level ∧ m1.shutdown = m.shutdown ∧ m1.inCall = m.inCall ∧ m1.returned = m.returned ∧
+          m1.flushes = m.flushes ∧ m1.ok = m.ok ∧ (∀ x, x ∈ m.written → x ∈ m1.written) ∧
+          (r.c.fail = false → (g, r.c.seq) ∈ m1.written) := by
+        by_cases hfail : r.c.fail = true
+        · simp only [hfail, if_true, List.foldl_nil] at hm1
+          subst hm1
+          exact ⟨rfl, rfl, rfl, rfl, rfl, rfl, fun _ hx => hx, fun hc => by rw [hfail] at hc; cases hc⟩
+        · simp only [hfail, Bool.false_eq_true, if_false, List.foldl_cons, List.foldl_nil, dStep] at hm1
+          subst hm1
+          exact ⟨rfl, rfl, rfl, rfl, rfl, rfl, fun _ hx => List.mem_cons_of_mem _ hx, fun _ => by rw [hrg]; exact List.mem_cons_self ..⟩
+      obtain ⟨e1, e2, e3, e4, e5, e6, e7, e8⟩ := hm1'
+      simp only [dStep, hop]
+      refine ⟨by simp [finishOp_eq, e1, h.lvl], by simp [finishOp_eq, e2, h.sd], by simp [finishOp_eq, h.cust],
+        by rw [e6]; exact h.ok, ?_, ?_, ?_⟩
+      · intro g' i b hmem
+        obtain ⟨hmem', hnot⟩ := mem_filter_not hmem
+        rw [e3] at hmem'
+        obtain ⟨wx, r', hwx, hg, hi, hbf⟩ := h.inCall g' i b hmem'
+        have hne : g' ≠ g := by
+          intro e
+          subst e
+          exact hnot ⟨rfl, (hflag i b hmem').1⟩
+        refine ⟨wx, r', ?_, hg, hi, hbf⟩
+        simp only [finishOp_eq, setWorker_ws, emit_ws, getElem?_set_worker _ g g' w _ hw]
+        simp [hne, hwx]
+      · intro g' x hmem
+        simp only at hmem
+        have hold : (g', x) ∈ m.returned → (g', x) ∈ m1.written ∨
+            ∃ r' ∈ (finishOp (emit s (if r.c.fail = true then [] else [Ev.write r.g r.c.seq true])) g w).batch ++
+              (finishOp (emit s (if r.c.fail = true then [] else [Ev.write r.g r.c.seq true])) g w).buffer,
+              r'.g = g' ∧ r'.c.seq = x ∧ r'.c.fail = false := by
+          intro hm
+          rcases h.ret g' x hm with hwr | hr
+          · exact Or.inl (e7 _ hwr)
+          · exact Or.inr hr
+        split at hmem
+        · rename_i hmust
+          simp only [List.mem_cons, Prod.mk.injEq] at hmem
+          rcases hmem with ⟨hg', hx'⟩ | hmem
+          · subst hg'; subst hx'
+            left
+            apply e8
+            rw [List.any_eq_true] at hmust
+            obtain ⟨y, hy, hyp⟩ := hmust
+            simp only [Bool.and_eq_true, beq_iff_eq] at hyp
+            rw [e3] at hy
+            have := (hflag y.2.1 y.2.2 (by rw [← hyp.1.1]; exact hy)).2 hyp.2
+            exact this
+          · rw [e4] at hmem; exact hold hmem
+        · rw [e4] at hmem; exact hold hmem
+      · intro g' i snap hmem gs hgs
+        simp only at hmem
+        rw [e5] at hmem
+        have := h.snaps g' i snap hmem gs hgs
+        simp only
+        split
+        · exact List.mem_cons_of_mem _ (by rw [e4]; exact this)
+        · rw [e4]; exact this
+    · sorry
+    · sorry
+
 end Rivaas.LogBuf
